@@ -588,3 +588,23 @@ def ops_frame(rng):
         acc = 5
     ops.append({"op": "Eq", "a": 1, "b": acc, "must": False})
     return ops, 5, cols
+
+
+# ------------------------------------------------------------------------------------------------
+# C02 / C05: systematic enumeration of fill transitions (one implementation test per specification transition)
+def transition_alphabet(d):
+    """one datum per routing class of every field in use: every edge / centre / midpoint / threshold, points between and
+    outside, NaN and +-inf; the secondary field and the selection / category fields take a few representative values"""
+    from . import model
+
+    return model.alphabet(d, "full")
+
+
+def ops_transitions(d, data, weights, cap=None, rng=None):
+    """all two-step histories New; Fill(a, w1); Fill(b, w2) over the alphabet (the pre-state classes are the states
+    reachable by one fill, plus the empty state); optionally a seeded sample of `cap` of them"""
+    pairs = [(a, w1, b, w2) for a in data for w1 in weights for b in data for w2 in weights]
+    if cap and len(pairs) > cap:
+        pairs = rng.sample(pairs, cap)
+    for a, w1, b, w2 in pairs:
+        yield [{"op": "New", "s": 1, "d": d}, {"op": "Fill", "s": 1, "x": a, "w": w1}, {"op": "Fill", "s": 1, "x": b, "w": w2}]
